@@ -220,7 +220,7 @@ def _case(draw):
     if c == "j9" and draw(st.integers(0, 2)) == 0:
         # plaintexts over all code points 1..255 (control characters, NBSP, DEL, ...), lengths up to 64
         plain = "".join(chr(x) for x in draw(st.lists(st.one_of(st.integers(1, 255), st.sampled_from([9, 27, 7, 127, 160, 255, 1])), min_size=1, max_size=draw(st.sampled_from([4, 16, 64])))))
-        v = draw(S.j9_value(plain=plain))
+        v = draw(S.j9_value(plain=plain, damaged=False))
     if c == "type7" and draw(st.integers(0, 2)) == 0:
         from ..ref import type7 as _T7
 
@@ -267,9 +267,9 @@ def _pair_case(draw):
     ccls = draw(st.sampled_from(["numeric", "hex", "text"]))
     plain = draw({"numeric": S.numeric_value(), "hex": S.hex_value(), "text": S.text_value(max_size=10, alphabet_mid=S.TEXT_END)}[ccls])
     ecls = draw(st.sampled_from(["j9", "type7"]))
-    enc = draw(S.j9_value(plain=plain)) if ecls == "j9" else T7.encode(plain, draw(st.integers(0, 15)))
+    enc = draw(S.j9_value(plain=plain, damaged=False)) if ecls == "j9" else T7.encode(plain, draw(st.integers(0, 15)))
     if ecls == "type7" and enc.isdigit():
-        ecls, enc = "j9", draw(S.j9_value(plain=plain))
+        ecls, enc = "j9", draw(S.j9_value(plain=plain, damaged=False))
     forms = [f for f in _FORMS1 if "exact" not in f.text_kw and f.reject is None and "alphabet_mid" not in f.text_kw]
 
     def item(c, v):
